@@ -385,6 +385,65 @@ func runC15(c *Ctx) {
 		c.verdict(nTick == 1 && nAfter == 0, c.nm(fn)+" | the loop waits on the ticker's channel", c.P.Pos(fn.Pos()), "case <-rebroadcastTicker.C", fmt.Sprintf("the handler loop has %d arm(s) on the ticker channel and %d on a per-iteration time.After", nTick, nAfter))
 	})
 
+	c.rule("C15.T3", "one key for a pending transaction: the handler files an accepted transaction under its txid (wire.MsgTx.TxHash), rebroadcast reports confirmed ones by TxHash, and every module caller of Broadcaster.MarkAsConfirmed passes a txid too (btcutil.Tx.Hash / MsgTx.TxHash, never the witness hash): the handler's delete must hit the entry the insert made, otherwise a transaction with witness data is rebroadcast for ever after it confirmed", func() {
+		mark := c.method("pushtx", "Broadcaster", "MarkAsConfirmed")
+		txHash := c.method(pWire, "MsgTx", "TxHash")
+		utilHash := c.method(pBtcutil, "Tx", "Hash")
+		isTxid := func(v ssa.Value) bool {
+			return ir.DerivesFrom(v, func(x ssa.Value) bool { return valIsCallTo(txHash, utilHash)(x) })
+		}
+		wit := []*types.Func{c.P.Method(pWire, "MsgTx", "WitnessHash"), c.P.Method(pBtcutil, "Tx", "WitnessHash")}
+		isWit := func(v ssa.Value) bool {
+			return ir.DerivesFrom(v, func(x ssa.Value) bool {
+				for _, w := range wit {
+					if w != nil && valIsCallTo(w)(x) {
+						return true
+					}
+				}
+				return false
+			})
+		}
+		n := 0
+		for _, pr := range []*ir.Program{c.P} {
+			for _, fn := range pr.Funcs {
+				for _, in := range find(fn, callTo(mark)) {
+					n++
+					a := argsOf(in)
+					okv := len(a) == 1 && isTxid(a[0]) && !isWit(a[0])
+					c.verdict(okv, c.nm(fn)+" | MarkAsConfirmed is given the txid", c.at(in), "argument derives from Tx.Hash() / MsgTx.TxHash()", "MarkAsConfirmed is called with something other than the transaction's txid (the pending set is keyed by TxHash): the confirmation misses the pending entry", c.at(in))
+				}
+			}
+		}
+		c.verdict(n >= 1, "module | callers of Broadcaster.MarkAsConfirmed", "", fmt.Sprintf("%d call(s)", n), "no caller of MarkAsConfirmed found (the rescan reports confirmations in the pinned tree)")
+		// the pending set's insert key and rebroadcast's report
+		bh := c.fn("(*pushtx.Broadcaster).broadcastHandler")
+		ins := 0
+		ir.Instrs(bh, func(in ssa.Instruction) {
+			mu, ok := in.(*ssa.MapUpdate)
+			if !ok {
+				return
+			}
+			m, ok := mu.Map.Type().Underlying().(*types.Map)
+			if !ok || types.TypeString(m.Key(), nil) != pChainhash+".Hash" {
+				return
+			}
+			ins++
+			c.verdict(isTxid(mu.Key) && !isWit(mu.Key), c.nm(bh)+" | pending set keyed by TxHash()", c.at(in), "key = req.tx.TxHash()", "the pending set is keyed by something other than the transaction's txid", c.at(in))
+		})
+		c.verdict(ins >= 1, c.nm(bh)+" | pending set insert", c.P.Pos(bh.Pos()), fmt.Sprintf("%d insert(s)", ins), "no insert into the pending set found")
+		rb := c.fn("(*pushtx.Broadcaster).rebroadcast")
+		for _, in := range find(rb, func(in ssa.Instruction) bool {
+			sel, ok := in.(*ssa.Select)
+			return ok && len(sel.States) > 0
+		}) {
+			for _, st := range in.(*ssa.Select).States {
+				if st.Dir == types.SendOnly {
+					c.verdict(isTxid(st.Send) && !isWit(st.Send), c.nm(rb)+" | confirmed transactions are reported by TxHash()", c.at(in), "confChan <- tx.TxHash()", "rebroadcast reports a confirmed transaction under something other than its txid", c.at(in))
+				}
+			}
+		}
+	})
+
 	c.rule("C15.T2", "the broadcaster recognises the verdicts the client produces: pushtx.IsBroadcastError classifies an error by asserting its dynamic type (*BroadcastError), so every error the Broadcast callback (ChainService.sendTransaction and the closure wired into pushtx.Config.Broadcast) returns that stems from a peer's reject must be that *BroadcastError itself, not a wrapped error (the two sides agree: assertion-based classifier <-> unwrapped producer; an errors.As-based classifier would admit wrapping)", func() {
 		c.graph()
 		be := c.P.Named("pushtx", "BroadcastError")
